@@ -128,8 +128,13 @@ func (w *World) resolveTypeExpr(pkg *types.Package, x ast.Expr, s string) types.
 	case *ast.ParenExpr:
 		return w.resolveTypeExpr(pkg, t.X, s)
 	case *ast.IndexExpr:
-		// generic instantiation Multi[T] — resolve through the instantiated named types seen in SSA
-		specFail("generic type %q in spec", s)
+		gen := w.resolveTypeExpr(pkg, t.X, s)
+		arg := w.resolveTypeExpr(pkg, t.Index, s)
+		inst, err := types.Instantiate(nil, gen, []types.Type{arg}, false)
+		if err != nil {
+			specFail("cannot instantiate %q: %v", s, err)
+		}
+		return inst
 	}
 	specFail("unsupported type expression %q", s)
 	return nil
@@ -634,6 +639,52 @@ func (c *SpecCtx) call(x *SExpr) Value {
 			specFail("fresh() outside a two-state context")
 		}
 		return boolV(mkAnd(sx(">=", r, c.old.next), sx("<", r, c.st.next)))
+	case "as", "istype":
+		iv, ok := c.eval(x.Args[0]).(*Iface)
+		if !ok {
+			specFail("%s needs an interface value", x.Name)
+		}
+		t := e.w.resolveType(c.pkg, x.Args[1].String())
+		e.declIface()
+		if x.Name == "istype" {
+			return boolV(mkEq(sx("dyntag", iv.T), e.typeTag(t)))
+		}
+		_, unbox := e.boxFuncs(t)
+		var ts []string
+		for _, u := range unbox {
+			ts = append(ts, sx(u, iv.T))
+		}
+		return e.fromLeaves(t, ts)
+	case "preserved":
+		// preserved(T): every location of type T allocated before the old state is unchanged
+		// since then (T a slice type: its backing arrays; T a struct type: its fields)
+		if c.old == nil {
+			specFail("preserved() outside a two-state context")
+		}
+		t := e.w.resolveType(c.pkg, x.Args[0].String())
+		var names, sorts []string
+		if st, ok := t.Underlying().(*types.Slice); ok {
+			ns, ss, _ := e.elemArrays(st.Elem())
+			names, sorts = ns, ss
+		} else {
+			for _, l := range e.leavesOf(t) {
+				n, srt := e.locName(&Ptr{Kind: "obj", Root: t}, l)
+				names, sorts = append(names, n), append(sorts, srt)
+			}
+		}
+		var cs []string
+		for i, n := range names {
+			a1 := e.heapGet(c.st, n, sorts[i])
+			a0 := e.heapGet(c.old, n, sorts[i])
+			if strings.HasPrefix(a1, "(") {
+				a1 = e.maybeNameForce(a1, sorts[i], "arr")
+			}
+			if a1 == a0 {
+				continue
+			}
+			cs = append(cs, fmt.Sprintf("(forall ((|$r| Int)) (! (=> (< |$r| %s) (= (select %s |$r|) (select %s |$r|))) :pattern ((select %s |$r|))))", c.old.next, a1, a0, a1))
+		}
+		return boolV(mkAnd(cs...))
 	case "samearr":
 		a, ok1 := c.eval(x.Args[0]).(*Slice)
 		b, ok2 := c.eval(x.Args[1]).(*Slice)
